@@ -284,6 +284,9 @@ func ExecBubble(t *testing.T, prop string, seed uint64, tier string, keep map[in
 			r.endSim = time.Since(r.start).String()
 		})
 	}()
+	// post-run checks are ordinary Go code on the real clock: give them the ordinary scheduler
+	// (timeouts of a CPU-bound search need sysmon's preemption)
+	runtime.SetSimSeed(0)
 	if res.Panic == "" {
 		if r.endSim == "" {
 			r.endSim = "end"
